@@ -428,7 +428,13 @@ func TestC04(t *testing.T) {
 		return
 	}
 	var corpus []wireBody
-	Bubble(t, func() { corpus = captureCorpus(thorough) })
+	Bubble(t, func() {
+		for _, w := range captureCorpus(thorough) {
+			if !w.KnownLength && !strings.Contains(w.Name, "kilobyte") { // cut bodies contradict an announced length; the kilobyte bodies are C03's
+				corpus = append(corpus, w)
+			}
+		}
+	})
 	c.Bound("corpus_bodies", len(corpus))
 	c04DoFails(t, c)
 	c04WriteFaults(t, c)
